@@ -1,7 +1,7 @@
 /-
   Proofs/TreeWalk.lean — `transform` and `replace_children` keep the invariant (C08), parametric in the user function.
 -/
-import SqlglotModel.Proofs.Tree
+import SqlglotModel.Proofs.TreeCopy
 
 namespace SqlglotModel.Tree
 
@@ -221,5 +221,164 @@ theorem inv_opReplaceChildren (F : HashFns H) {fuel : Nat} {fn : UserFun H} {sel
     (hI : Inv F h) (ha : RcAdm F fuel fn self h nx (h self).args)
     (he : opReplaceChildren fuel fn h nx self = some (h', nx')) : Inv F h' :=
   inv_replaceChildrenLoop F _ h nx h' nx' hI ha he
+
+/-! ### transform inside a region: the frame -/
+
+theorem mem_itemIds {c : Id} : ∀ {items : List Item}, c ∈ itemIds items → Item.node c ∈ items
+  | [], h => by cases h
+  | .node c' :: r, h => by
+    simp only [itemIds, List.mem_cons] at h
+    rcases h with e | e
+    · subst e; simp
+    · exact List.mem_cons_of_mem _ (mem_itemIds e)
+  | .leaf _ :: r, h => by
+    simp only [itemIds] at h
+    exact List.mem_cons_of_mem _ (mem_itemIds h)
+
+theorem mem_childIds {c : Id} : ∀ {args : List (String × Arg)}, c ∈ childIds args → IsChild args c
+  | [], h => by cases h
+  | (k, a) :: r, h => by
+    simp only [childIds, List.mem_append] at h
+    rcases h with e | e
+    · refine ⟨k, a, by simp, ?_⟩
+      cases a with
+      | one c' => simp only [argIds, List.mem_singleton] at e; subst e; exact ⟨none, rfl⟩
+      | leaf s => simp [argIds] at e
+      | many items =>
+        obtain ⟨j, hj⟩ := List.mem_iff_getElem?.mp (mem_itemIds e)
+        exact ⟨some j, by simpa [ArgHas] using hj⟩
+    · obtain ⟨k', a', hm, hx⟩ := mem_childIds e
+      exact ⟨k', a', List.mem_cons_of_mem _ hm, hx⟩
+
+/-- along a `transform` run inside the region `R`: the user function writes no cell outside `R`, keeps `R` a region and
+    the args dicts, and hands back nodes of `R` -/
+def TrFr (R : Id → Prop) (fuel : Nat) (fn : UserFun H) : Nat → Heap H → Nat → List Id → Prop
+  | 0, _, _, _ => True
+  | _ + 1, _, _, [] => True
+  | f + 1, h, nx, node :: st =>
+    ∀ h1 nx1 v, fn h nx node = some (h1, nx1, v) →
+      (∀ m, ¬ R m → h1 m = h m) ∧ (Region h R → Keys h → Region h1 R ∧ Keys h1) ∧
+      (∀ c, Item.node c ∈ itemOfValue v → R c) ∧
+      ∀ h2 nx2 d, transformStep fuel fn h nx node = some (h2, nx2, d) →
+        TrFr R fuel fn f h2 nx2 (if d then childIds (h2 node).args ++ st else st)
+
+theorem transformLoop_frame {R : Id → Prop} {fuel : Nat} {fn : UserFun H} :
+    ∀ (f : Nat) (h : Heap H) (nx : Nat) (st : List Id) (h' : Heap H) (nx' : Nat), Region h R → Keys h →
+      (∀ n, n ∈ st → R n) → TrFr R fuel fn f h nx st → transformLoop fuel fn f h nx st = some (h', nx') →
+      (∀ m, ¬ R m → h' m = h m) ∧ Region h' R ∧ Keys h'
+  | 0, _, _, _, _, _, _, _, _, _, he => by simp [transformLoop] at he
+  | f + 1, h, nx, [], h', nx', hR, hk, _, _, he => by
+    simp only [transformLoop, Option.some.injEq, Prod.mk.injEq] at he
+    obtain ⟨e, _⟩ := he; subst e; exact ⟨fun _ _ => rfl, hR, hk⟩
+  | f + 1, h, nx, node :: st, h', nx', hR, hk, hst, ha, he => by
+    simp only [transformLoop] at he
+    split at he
+    · cases he
+    · next h2 nx2 d hstep =>
+      have hnode : R node := hst node (by simp)
+      -- one step
+      have step : (∀ m, ¬ R m → h2 m = h m) ∧ Region h2 R ∧ Keys h2 ∧
+          TrFr R fuel fn f h2 nx2 (if d then childIds (h2 node).args ++ st else st) := by
+        have hstep' := hstep
+        unfold transformStep at hstep
+        simp only at hstep
+        cases hfn : fn h nx node with
+        | none => rw [hfn] at hstep; cases hstep
+        | some r =>
+          obtain ⟨h1, nx1, v⟩ := r
+          obtain ⟨hfr, hreg, hval, hrest⟩ := ha h1 nx1 v hfn
+          obtain ⟨hR1, hk1⟩ := hreg hR hk
+          rw [hfn] at hstep
+          simp only at hstep
+          split at hstep
+          · simp only [Option.some.injEq, Prod.mk.injEq] at hstep
+            obtain ⟨e, _, _⟩ := hstep; subst e
+            exact ⟨hfr, hR1, hk1, hrest _ _ _ hstep'⟩
+          · split at hstep
+            · next p k hp hkey =>
+              split at hstep
+              · next h2' hset =>
+                simp only [Option.some.injEq, Prod.mk.injEq] at hstep
+                obtain ⟨e, _, _⟩ := hstep; subst e
+                have hRp : R p := hR.up node p hnode hp
+                obtain ⟨hR2, hk2⟩ := region_opSet hR1 hk1 hRp hval hset
+                refine ⟨?_, hR2, hk2, hrest _ _ _ hstep'⟩
+                intro m hm
+                rw [opSet_region_frame hR1 hRp hval hset m hm, hfr m hm]
+              · cases hstep
+            · simp only [Option.some.injEq, Prod.mk.injEq] at hstep
+              obtain ⟨e, _, _⟩ := hstep; subst e
+              exact ⟨hfr, hR1, hk1, hrest _ _ _ hstep'⟩
+      obtain ⟨hfr2, hR2, hk2, hrest2⟩ := step
+      have hst2 : ∀ n, n ∈ (if d then childIds (h2 node).args ++ st else st) → R n := by
+        intro n hn
+        split at hn
+        · rcases List.mem_append.mp hn with e | e
+          · obtain ⟨k, i, hs⟩ := isChild_stored (hk2 node) (mem_childIds e)
+            exact hR2.down node k i n hnode hs
+          · exact hst n (List.mem_cons_of_mem _ e)
+        · exact hst n (List.mem_cons_of_mem _ hn)
+      obtain ⟨a, b, c⟩ := transformLoop_frame f h2 nx2 _ h' nx' hR2 hk2 hst2 hrest2 he
+      exact ⟨fun m hm => by rw [a m hm, hfr2 m hm], b, c⟩
+
+/-- admissibility of `root.transform(fun, copy=True)` w.r.t. the region of the fresh copy -/
+def TransformFr (R : Id → Prop) (fuel : Nat) (fn : UserFun H) (h : Heap H) (nx : Nat) (root : Id) : Prop :=
+  ∀ h1 nx1 v, fn h nx root = some (h1, nx1, v) →
+    (∀ m, ¬ R m → h1 m = h m) ∧ (Region h R → Keys h → Region h1 R ∧ Keys h1) ∧
+    (v = .node root → TrFr R fuel fn fuel h1 nx1 (childIds (h1 root).args))
+
+theorem opTransform_frame {R : Id → Prop} {fuel : Nat} {fn : UserFun H} {h h' : Heap H} {nx nx' : Nat} {root : Id}
+    {r : Value} (hR : Region h R) (hk : Keys h) (hroot : R root) (ha : TransformFr R fuel fn h nx root)
+    (he : opTransform fuel fn h nx root = some (h', nx', r)) : ∀ m, ¬ R m → h' m = h m := by
+  unfold opTransform at he
+  split at he
+  · cases he
+  · next h1 nx1 v hfn =>
+    obtain ⟨hfr, hreg, hrest⟩ := ha h1 nx1 v hfn
+    obtain ⟨hR1, hk1⟩ := hreg hR hk
+    split at he
+    · next hv =>
+      split at he
+      · next h2 nx2 hl =>
+        simp only [Option.some.injEq, Prod.mk.injEq] at he
+        obtain ⟨e, _, _⟩ := he; subst e
+        have hst : ∀ n, n ∈ childIds (h1 root).args → R n := by
+          intro n hn
+          obtain ⟨k, i, hs⟩ := isChild_stored (hk1 root) (mem_childIds hn)
+          exact hR1.down root k i n hroot hs
+        obtain ⟨a, _, _⟩ := transformLoop_frame fuel h1 nx1 _ h2 nx2 hR1 hk1 hst (hrest hv) hl
+        intro m hm; rw [a m hm, hfr m hm]
+      · cases he
+    · have fin : ∀ x, some (h1, nx1, x) = some (h', nx', r) → ∀ m, ¬ R m → h' m = h m := by
+        intro x hx
+        simp only [Option.some.injEq, Prod.mk.injEq] at hx
+        obtain ⟨e, _, _⟩ := hx; subst e; exact hfr
+      split at he
+      · cases he
+      · cases he
+      · split at he
+        · exact fin _ he
+        · cases he
+      · exact fin _ he
+
+/-- **`transform(fun, copy=True)` leaves its argument untouched** (frame corollary): every cell that existed before the
+    call — args, back pointers and hash caches of the argument tree and of every other tree — is unchanged, and the
+    invariant is kept, for a user function that works inside the copy. -/
+theorem opTransformCopy_pure (F : HashFns H) {fuel : Nat} {fn : UserFun H} {h0 h' : Heap H} {base nx' : Nat} {root : Id}
+    {r : Value} (hI0 : Inv F h0) (hf0 : FreshFrom h0 base) (hn : base > root)
+    (hfr : ∀ h1 nx1 c, opDeepcopy fuel h0 root base = some (h1, nx1, c) →
+      TransformFr (fun m => base ≤ m) fuel fn h1 nx1 c ∧ TransformAdm F fuel fn h1 nx1 c)
+    (he : opTransformCopy fuel fn h0 base root = some (h', nx', r)) :
+    (∀ m, m < base → h' m = h0 m) ∧ Inv F h' := by
+  unfold opTransformCopy at he
+  split at he
+  · next h1 nx1 c hc =>
+    obtain ⟨hI1, _, hfr1, hreg1, hcb, _⟩ := deepcopy_spec hI0 hf0 hn hc
+    obtain ⟨a1, a2⟩ := hfr h1 nx1 c hc
+    refine ⟨?_, inv_opTransform F hI1 a2 he⟩
+    intro m hm
+    have := opTransform_frame hreg1 hI1.keys (by rw [hcb]; exact Nat.le_refl _) a1 he m (by omega)
+    rw [this, hfr1 m hm]
+  · cases he
 
 end SqlglotModel.Tree
